@@ -194,7 +194,25 @@ class Weaver:
         """R2 (pattern parameters), W3 (closure contracts) and R5 cuts for the closures of a function; `within` restricts the pass to
         the closures nested inside a byte span (used when a closure body is itself emitted as a function, R5)."""
         r2 = spec.get("r2_all", True)
-        cl_specs = {c["ordinal"]: c for c in spec.get("closure", [])}
+        cl_specs = {c["ordinal"]: c for c in spec.get("closure", []) if "ordinal" in c}
+        # closures may also be addressed by content (`body_contains`): the annotation applies to every closure whose source text
+        # contains the string — robust against closures being added or removed elsewhere in the function
+        pat_specs = [c for c in spec.get("closure", []) if "body_contains" in c]
+        for ps in pat_specs:
+            hit = 0
+            for k, c in enumerate(closures):
+                if within is not None and not (within[0] <= c["span"][0] and c["span"][1] <= within[1] and c["span"] != list(within_self)):
+                    continue
+                if ps["body_contains"] in src[c["body"][0]:c["body"][1]].decode("utf-8") and k not in cl_specs:
+                    # innermost match only: skip a closure that merely encloses a matching one
+                    inner = [c2 for c2 in closures if c2 is not c and c["body"][0] <= c2["span"][0] and c2["span"][1] <= c["body"][1]
+                             and ps["body_contains"] in src[c2["body"][0]:c2["body"][1]].decode("utf-8")]
+                    if inner:
+                        continue
+                    cl_specs[k] = dict(ps, ordinal=k)
+                    hit += 1
+            if hit < ps.get("min", 1):
+                raise Undecided(f"anchor lost: no closure of {spec['path']} contains {ps['body_contains']!r}")
         for k, c in enumerate(closures):
             if within is not None and not (within[0] <= c["span"][0] and c["span"][1] <= within[1] and c["span"] != list(within_self)):
                 continue
@@ -609,6 +627,14 @@ def rewrite_assert(txt, nm):
 def apply_patch(text, p, fired, where):
     old, new = p["old"], p["new"]
     cnt = p.get("count", 1)
+    if p.get("flex"):
+        # whitespace-flexible anchor: any run of whitespace in the anchor (or none, between tokens split there) matches any run
+        rx = re.compile(r"\s*".join(re.escape(tok) for tok in old.split()))
+        n = len(rx.findall(text))
+        if (cnt == "any" and n == 0) or (cnt != "any" and n != cnt):
+            raise Undecided(f"{p.get('rule', 'R4')} patch anchor {old!r} (flex) occurs {n} times in {where}, expected {cnt}")
+        fired.append(p.get("rule", "R4"))
+        return rx.sub(lambda m: new, text)
     n = text.count(old)
     if cnt == "any":
         if n == 0:
